@@ -110,6 +110,26 @@ UnitTri(p) == <<p[1][1], p[2][1], IF p[1][2] + p[2][2] > D THEN 1 ELSE 0>>
 \* strictly inside the segment triangle i > 0, j > 0, i + j < 2^h
 Inside(p, h) == /\ GtInt(p[1], 0) /\ GtInt(p[2], 0)
                 /\ LET s == AddF(p[1], p[2]) IN s[1] < 2^h
+\* ---- the cell's pentagon in the lattice: vertices as floor-form pairs ----
+\* local coordinates (thousandths of a lattice unit) relative to the integer part of the centre
+LocalK(x, base) == (x[1] - base) * 1000 + (x[2] \div 10)
+RECURSIVE SumTo(_, _)
+SumTo(f, n) == IF n = 0 THEN 0 ELSE f[n] + SumTo(f, n - 1)
+\* twice the signed area of the pentagon, in millionths of the lattice parallelogram (every A5 pentagon measures
+\* exactly half a parallelogram, i.e. 1,000,000 here, and is counter-clockwise in (i, j))
+TwiceArea(pv, c) == LET L == [k \in 1..Len(pv) |-> <<LocalK(pv[k][1], c[1][1]), LocalK(pv[k][2], c[2][1])>>]
+                        n == Len(pv)
+                        T == [k \in 1..n |-> L[k][1] * L[(k % n) + 1][2] - L[(k % n) + 1][1] * L[k][2]]
+                    IN SumTo(T, n)
+NearCentre(pv, c) == \A k \in 1..Len(pv) : pv[k][1][1] - c[1][1] \in -3..3 /\ pv[k][2][1] - c[2][1] \in -3..3
+HalfParallelogram(pv, c) == NearCentre(pv, c) /\ TwiceArea(pv, c) >= 990000 /\ TwiceArea(pv, c) <= 1010000
+\* every vertex lies in the closed segment triangle (tolerance 5e-4 lattice units)
+VertexWithin(x, y, h) == LET sxy == AddF(x, y) IN
+     /\ (x[1] >= 0 \/ (x[1] = -1 /\ x[2] >= D - 5))
+     /\ (y[1] >= 0 \/ (y[1] = -1 /\ y[2] >= D - 5))
+     /\ (sxy[1] < 2^h \/ (sxy[1] = 2^h /\ sxy[2] <= 5))
+PentagonWithin(pv, h) == \A k \in 1..Len(pv) : VertexWithin(pv[k][1], pv[k][2], h)
+
 \* squared distance (in units of 1/1000 lattice unit, halved) between child centre / 2 and parent centre
 \* |di e_i + dj e_j|^2 = di^2 + dj^2 + 2 cos(72) di dj,  2 cos 72 = 0.618
 Milli(x) == x[1] * 1000 + (x[2] \div 10)           \* floor-form -> thousandths (needs |x| < 2^21)
